@@ -1,7 +1,10 @@
 //! Logic related to the Gatekeeper, the component in charge of managing access to the tower resources.
 
 use lightning::chain;
+#[cfg(not(kani))]
 use std::collections::HashMap;
+#[cfg(kani)]
+use crate::verif_collections::HashMap;
 use std::sync::atomic::{AtomicU32, Ordering};
 use std::sync::{Arc, Mutex};
 
@@ -914,3 +917,7 @@ mod tests {
         );
     }
 }
+
+#[cfg(kani)]
+#[path = "/verif/harness/teos/gatekeeper.rs"]
+mod verif_harness;
